@@ -396,9 +396,9 @@ class Check:
             self.samples.append(_truncate(case))
 
     # -- L2 / L3 reports
-    def mismatch(self, case, detail):
+    def mismatch(self, case, detail, force=False):
         """model and implementation disagree on `case` (correspondence broken)."""
-        if len(self.mismatches) < 20:
+        if len(self.mismatches) < 20 or force:
             self.mismatches.append({"case": _truncate(case, 4000), "detail": _truncate(detail, 2000)})
         self.count("L2_mismatch")
 
